@@ -628,6 +628,9 @@ enum Op {
     Dollar,
     Rev,
     Sort,
+    /// `.= len` / `.= str`: results of another kind (used against typed variables)
+    Len,
+    Str,
 }
 impl Op {
     fn sym(self) -> &'static str {
@@ -639,7 +642,7 @@ impl Op {
             Op::DelKey => "-.",
             Op::Union => "||",
             Op::Dollar => "$",
-            Op::Rev | Op::Sort => ".",
+            Op::Rev | Op::Sort | Op::Len | Op::Str => ".",
         }
     }
 }
@@ -759,7 +762,106 @@ fn binop(op: Op, a: V, b: &V) -> Option<R<V>> {
             V::Null | V::Int(_) => Err(()),
             _ => return None,
         },
+        Op::Len => match a {
+            V::List(xs) => Ok(V::Int(xs.len() as i64)),
+            V::Str(s) | V::Bytes(s) => Ok(V::Int(s.len() as i64)),
+            V::Vector(s) => Ok(V::Int(s.len() as i64)),
+            V::Dict(m, _) => Ok(V::Int(m.len() as i64)),
+            _ => return None,
+        },
+        Op::Str => match a {
+            V::Int(n) => Ok(V::Str(n.to_string().into_bytes())),
+            _ => return None,
+        },
     })
+}
+fn op_name(op: Op) -> &'static str {
+    match op {
+        Op::Rev => "reverse",
+        Op::Sort => "sort",
+        Op::Len => "len",
+        Op::Str => "str",
+        o => o.sym(),
+    }
+}
+
+// ---------------------------------------------------------------------------------------------
+// declared types (part B: `qa: int = 5`).  A whole-variable write of a value the declared type
+// rejects raises and must leave the variable as it was.  The types of the history being simulated
+// live in a thread-local (they never change after the declaration; part A clears the table), as do
+// the switches for the two deliberately WRONG variants of the reference semantics that are only used
+// to count how many generated cases could tell them apart.
+#[derive(Clone, Copy, Debug, PartialEq)]
+enum Ty {
+    Any,
+    Int,
+    List,
+    Str,
+    Dict,
+    Vector,
+    Bytes,
+}
+impl Ty {
+    fn name(self) -> &'static str {
+        match self {
+            Ty::Any => "any",
+            Ty::Int => "int",
+            Ty::List => "list",
+            Ty::Str => "str",
+            Ty::Dict => "dict",
+            Ty::Vector => "vector",
+            Ty::Bytes => "bytes",
+        }
+    }
+    fn of(v: &V) -> Ty {
+        match v {
+            V::Int(_) => Ty::Int,
+            V::List(_) => Ty::List,
+            V::Str(_) => Ty::Str,
+            V::Dict(..) => Ty::Dict,
+            V::Vector(_) => Ty::Vector,
+            V::Bytes(_) => Ty::Bytes,
+            _ => Ty::Any,
+        }
+    }
+    fn accepts(self, v: &V) -> bool {
+        self == Ty::Any || Ty::of(v) == self
+    }
+}
+thread_local! {
+    static TYPES: std::cell::RefCell<Vec<Ty>> = std::cell::RefCell::new(Vec::new());
+    /// 0 = the reference semantics; 1 = "a rejected whole-variable write still happens" (a4);
+    /// 2 = "the default of (d[k] = dflt) op= v is always evaluated" (b4)
+    static WRONG: std::cell::Cell<u8> = std::cell::Cell::new(0);
+}
+fn ty_of(x: usize) -> Ty {
+    TYPES.with(|t| t.borrow().get(x).copied().unwrap_or(Ty::Any))
+}
+fn types_clear() {
+    TYPES.with(|t| t.borrow_mut().clear());
+}
+fn types_push(t: Ty) {
+    TYPES.with(|ts| ts.borrow_mut().push(t));
+}
+fn any_typed() -> bool {
+    TYPES.with(|t| t.borrow().iter().any(|t| *t != Ty::Any))
+}
+fn wrong() -> u8 {
+    WRONG.with(|w| w.get())
+}
+fn set_wrong(n: u8) {
+    WRONG.with(|w| w.set(n));
+}
+/// `x[path] = val` as the interpreter's assign_respecting_type does it: a whole-variable write is
+/// type-checked BEFORE anything is written; indexed writes cannot change the kind of the variable
+fn assign_into(vars: &mut [V], x: usize, path: &[Ix], val: V) -> R<()> {
+    if path.is_empty() && !ty_of(x).accepts(&val) {
+        if wrong() == 1 {
+            vars[x] = val;
+        }
+        return Err(());
+    }
+    set_index(&mut vars[x], path, Some(val), false)
 }
 
 // ---------------------------------------------------------------------------------------------
@@ -776,7 +878,8 @@ fn st_op(vars: &mut [V], x: usize, path: &[Ix], op: Op, rhs: &V) -> Option<bool>
     }
     match res {
         Err(_) => Some(false),
-        Ok(c) => Some(set_index(&mut vars[x], path, Some(c), false).is_ok()),
+        // a rejected write-back leaves the (typed) variable null: the slot was nulled above
+        Ok(c) => Some(assign_into(vars, x, path, c).is_ok()),
     }
 }
 /// operator assignment whose right-hand side has side effects on the store.  Documented order:
@@ -819,7 +922,7 @@ fn st_op_ordered<S>(
     }
     match binop(op, lhs, &r)? {
         Err(_) => Some(false),
-        Ok(c) => Some(set_index(&mut vars_of(st)[x], path, Some(c), false).is_ok()),
+        Ok(c) => Some(assign_into(vars_of(st), x, path, c).is_ok()),
     }
 }
 fn st_every_op(vars: &mut [V], x: usize, path: &[Ix], op: Op, rhs: &V) -> Option<bool> {
@@ -865,20 +968,19 @@ fn st_extract(vars: &mut [V], kind: Ext, y: usize, x: usize, path: &[Ix]) -> boo
         },
     };
     match r {
-        Ok(val) => {
-            vars[y] = val;
-            true
-        }
+        // the extraction HAS happened when the typed target rejects the value
+        Ok(val) => assign_into(vars, y, &[], val).is_ok(),
         Err(_) => false,
     }
 }
 fn st_swap(vars: &mut [V], x: usize, px: &[Ix], y: usize, py: &[Ix]) -> bool {
     let Ok(a) = get_path(&vars[x], px) else { return false };
     let Ok(b) = get_path(&vars[y], py) else { return false };
-    if set_index(&mut vars[x], px, Some(b), false).is_err() {
+    // two assignments: when the first is rejected nothing changes, when the second is, the first stays
+    if assign_into(vars, x, px, b).is_err() {
         return false;
     }
-    set_index(&mut vars[y], py, Some(a), false).is_ok()
+    assign_into(vars, y, py, a).is_ok()
 }
 
 // ---------------------------------------------------------------------------------------------
@@ -1113,6 +1215,12 @@ struct Local {
     /// op-assignments with a mutating right-hand side whose outcome depends on reading the old value first
     order_sensitive: u64,
     rhsmut_cases: u64,
+    /// statements on histories with typed variables / of these: result differs when a rejected write happens
+    typed_cases: u64,
+    a4_sensitive: u64,
+    /// with-default op-assignments / of these: result differs when the default is always evaluated
+    withdefault_cases: u64,
+    b4_sensitive: u64,
 }
 impl Local {
     fn arm(&mut self, a: &str) {
@@ -1777,6 +1885,7 @@ fn run_a_shard(mut rng: Rng, n_hist: usize, max_len: usize, driver: &str) -> Loc
             interp.eval(&format!("{} := null", VARS[i]));
         }
         let names: Vec<String> = (0..nvars).map(|i| VARS[i].to_string()).collect();
+        types_clear();
         let mut vars = vec![V::Null; nvars];
         let mut h = AHist { nvars, recs: vec![] };
         let build_len = 2 + len / 3;
@@ -1948,10 +2057,7 @@ fn store_vars(s: &mut Store) -> &mut Vec<V> {
 }
 fn eval_mrhs(st: &mut Store, m: &MutRhs) -> Option<R<V>> {
     match m {
-        MutRhs::AssignThen { z, val, then } => {
-            st.vars[*z] = val.clone();
-            Some(Ok(then.clone()))
-        }
+        MutRhs::AssignThen { z, val, then } => Some(assign_into(&mut st.vars, *z, &[], val.clone()).map(|_| then.clone())),
         MutRhs::Extract { kind, z, path } => Some(match kind {
             Ext::Pop => modify(&mut st.vars[*z], path, &mut pop_leaf),
             Ext::Consume => modify(&mut st.vars[*z], path, &mut take_leaf),
@@ -2176,6 +2282,53 @@ enum Eff {
     DeclUpd(Upd),
     OpMut { x: usize, path: Vec<Ix>, op: Op, rhs: MutRhs },
     SetMut { x: usize, path: Vec<Ix>, rhs: MutRhs },
+    /// `qa, qb = v1, v2`: the right-hand side is evaluated first, the targets are assigned left to right
+    Unpack { xs: Vec<usize>, vals: Vec<V> },
+    /// `(x[path] = dflt) op= rhs`
+    WithDefault { x: usize, path: Vec<Ix>, dflt: DefaultE, op: Op, rhs: V },
+}
+#[derive(Clone, Debug)]
+enum DefaultE {
+    Pure(V),
+    Mut(MutRhs),
+}
+/// `(x[path] = dflt) op= rhs` on a dict WITHOUT default: key present -> the stored entry is the old value
+/// and `dflt` is NOT evaluated; key absent -> `dflt` is evaluated exactly once (with its side effects)
+/// and is the old value; then the usual order (null the slot = insert null at the key, operator, assign)
+fn st_withdefault(st: &mut Store, x: usize, path: &[Ix], dflt: &DefaultE, op: Op, rhs: &V) -> Option<bool> {
+    let Some((last, rest)) = path.split_last() else { return Some(false) };
+    let cont = match get_path(&st.vars[x], rest) {
+        Ok(c) => c,
+        Err(_) => return Some(false),
+    };
+    let lhs = match &cont {
+        V::Dict(m, None) => {
+            let Some((kt, _)) = ix_key(last) else { return Some(false) };
+            let stored = m.get(&kt).map(|(_, v)| v.clone());
+            if stored.is_none() || wrong() == 2 {
+                let dv = match dflt {
+                    DefaultE::Pure(v) => Ok(v.clone()),
+                    DefaultE::Mut(m) => eval_mrhs(st, m)?,
+                };
+                match dv {
+                    Err(()) => return Some(false),
+                    Ok(v) => stored.unwrap_or(v),
+                }
+            } else {
+                stored.unwrap()
+            }
+        }
+        // a dict with default rejects the form; so does anything that is not a dict
+        _ => return Some(false),
+    };
+    let res = binop(op, lhs, rhs)?;
+    if set_index(&mut st.vars[x], path, None, true).is_err() {
+        return Some(false);
+    }
+    match res {
+        Err(_) => Some(false),
+        Ok(c) => Some(assign_into(&mut st.vars, x, path, c).is_ok()),
+    }
 }
 /// apply to the reference store; `None` = the statement must not be generated (operator result unknown
 /// to the reference semantics, or a multi-slot statement that fails half-way, which is unspecified)
@@ -2204,7 +2357,9 @@ fn apply(eff: &Eff, st: &mut Store) -> Option<bool> {
         }
         Eff::EveryMulti { xs, val } => {
             for x in xs {
-                st.vars[*x] = val.clone();
+                if assign_into(&mut st.vars, *x, &[], val.clone()).is_err() {
+                    return Some(false);
+                }
             }
             Some(true)
         }
@@ -2213,12 +2368,11 @@ fn apply(eff: &Eff, st: &mut Store) -> Option<bool> {
         Eff::Extract { kind, y, x, path } => Some(st_extract(&mut st.vars, *kind, *y, *x, path)),
         Eff::Swap { x, px, y, py } => Some(st_swap(&mut st.vars, *x, px, *y, py)),
         Eff::AssignVal { y, val } => match val {
-            Ok(v) => {
-                st.vars[*y] = v.clone();
-                Some(true)
-            }
+            Ok(v) => Some(assign_into(&mut st.vars, *y, &[], v.clone()).is_ok()),
             Err(()) => Some(false),
         },
+        // the reference cannot predict whether a typed target accepts an adopted value
+        Eff::Adopt { y } if ty_of(*y) != Ty::Any => None,
         Eff::Adopt { .. } => Some(true),
         Eff::SetClo { c, clo } => {
             st.clos[*c] = clo.clone();
@@ -2229,6 +2383,17 @@ fn apply(eff: &Eff, st: &mut Store) -> Option<bool> {
             Some(true)
         }
         Eff::OpMut { x, path, op, rhs } => st_op_with(st, store_vars, *x, path, *op, &mut |s: &mut Store| eval_mrhs(s, rhs)),
+        Eff::Unpack { xs, vals } => {
+            // mirrors the clean tree: targets before the rejecting one keep their new value, the rejecting
+            // target keeps its old value, later targets are not assigned
+            for (x, v) in xs.iter().zip(vals.iter()) {
+                if assign_into(&mut st.vars, *x, &[], v.clone()).is_err() {
+                    return Some(false);
+                }
+            }
+            Some(true)
+        }
+        Eff::WithDefault { x, path, dflt, op, rhs } => st_withdefault(st, *x, path, dflt, *op, rhs),
         Eff::SetMut { x, path, rhs } => match eval_mrhs(st, rhs)? {
             // index expressions, then the right-hand side, then the assignment into the then-current value
             Err(()) => Some(false),
@@ -2526,6 +2691,382 @@ fn gen_slice(rng: &mut Rng, len: usize) -> Ix {
     Ix::S(lo, hi)
 }
 
+
+/// an expression of the given kind (`want`) or of any OTHER kind (`avoid`)
+fn gen_kind_value(rng: &mut Rng, st: &Store, want: Option<Ty>, avoid: Option<Ty>) -> E {
+    for _ in 0..8 {
+        let e = gen_expr(rng, st, 2);
+        let t = Ty::of(&e.val);
+        let ok = match (want, avoid) {
+            (Some(w), _) => t == w,
+            (_, Some(a)) => t != a,
+            _ => true,
+        };
+        if ok {
+            return e;
+        }
+    }
+    match (want, avoid) {
+        (Some(Ty::Int), _) => lit(V::Int(rng.range(-5, 20))),
+        (Some(Ty::List), _) => pure_lit(rng, 1),
+        (Some(Ty::Str), _) => lit(V::Str(gen_str(rng, 0))),
+        (Some(Ty::Dict), _) => pure_lit(rng, 3),
+        (Some(Ty::Vector), _) => lit(V::Vector(vec![rng.range(0, 9), rng.range(0, 9)])),
+        (Some(Ty::Bytes), _) => lit(V::Bytes(gen_str(rng, 1))),
+        (_, Some(Ty::Int)) => lit(V::Str(gen_str(rng, 1))),
+        _ => lit(V::Int(rng.range(-5, 20))),
+    }
+}
+/// statements that write a whole TYPED variable, mostly with a value its declared type rejects
+fn gen_typed(rng: &mut Rng, st: &Store, _ill: bool) -> Option<BGen> {
+    let nv = st.vars.len();
+    let typed: Vec<usize> = (0..nv).filter(|i| ty_of(*i) != Ty::Any).collect();
+    if typed.is_empty() {
+        return None;
+    }
+    let t = typed[rng.below(typed.len() as u64) as usize];
+    let ty = ty_of(t);
+    let wrong_kind = rng.chance(7, 10);
+    let value = |rng: &mut Rng| -> E {
+        if wrong_kind {
+            gen_kind_value(rng, st, None, Some(ty))
+        } else {
+            gen_kind_value(rng, st, Some(ty), None)
+        }
+    };
+    let other = |rng: &mut Rng| -> usize {
+        let mut y = rng.below(nv as u64) as usize;
+        if y == t {
+            y = (t + 1 + rng.below((nv - 1) as u64) as usize) % nv;
+        }
+        y
+    };
+    let tag = |f: &str| format!("{}({})", f, ty.name());
+    match rng.below(12) {
+        0 | 1 => {
+            // plain assignment, also of a call / update result
+            let (src, val): (String, R<V>) = match rng.below(5) {
+                0 => {
+                    let y = rng.below(nv as u64) as usize;
+                    let f = *rng.pick(&[Op::Rev, Op::Len, Op::Sort]);
+                    let r = binop(f, st.vars[y].clone(), &V::Null)?;
+                    (format!("{}({})", op_name(f), VARS[y]), r)
+                }
+                1 => {
+                    let y = rng.below(nv as u64) as usize;
+                    let k = match &st.vars[y] {
+                        V::Dict(..) => gen_key(rng),
+                        _ => Ix::I(rng.range(-1, 1)),
+                    };
+                    let v = lit(V::Int(rng.range(0, 9)));
+                    let mut base = st.vars[y].clone();
+                    let r = set_index(&mut base, &[k.clone()], Some(v.val), false).map(|_| base);
+                    (format!("{}{{{} = {}}}", VARS[y], k.key_src(), v.src), r)
+                }
+                _ => {
+                    let e = value(rng);
+                    (e.src, Ok(e.val))
+                }
+            };
+            Some(BGen {
+                src: format!("{} = {}", VARS[t], src),
+                key: "ref:typed-assign",
+                form: tag("typed-assign"),
+                kind: st.vars[t].kind(),
+                probe: vec![(t, vec![])],
+                copies_container: false,
+                eff: Eff::AssignVal { y: t, val },
+            })
+        }
+        2 | 3 => {
+            let e = value(rng);
+            let (xs, src) = if nv >= 2 && rng.chance(1, 2) {
+                let y = other(rng);
+                let xs = if rng.chance(1, 2) { vec![t, y] } else { vec![y, t] };
+                let names: Vec<&str> = xs.iter().map(|x| VARS[*x]).collect();
+                (xs, format!("every {} = {}", names.join(", "), e.src))
+            } else {
+                (vec![t], format!("every {} = {}", VARS[t], e.src))
+            };
+            Some(BGen {
+                src,
+                key: "ref:typed-every",
+                form: tag("typed-every"),
+                kind: st.vars[t].kind(),
+                probe: vec![(t, vec![])],
+                copies_container: false,
+                eff: Eff::EveryMulti { xs, val: e.val },
+            })
+        }
+        4 | 5 => {
+            if nv < 2 {
+                return None;
+            }
+            // unpacking: the typed target first, second (or in the middle of three)
+            let mut xs = vec![t];
+            let y = other(rng);
+            xs.push(y);
+            if nv >= 3 && rng.chance(1, 3) {
+                let z = (0..nv).find(|z| *z != t && *z != y)?;
+                xs.push(z);
+            }
+            let r = rng.below(xs.len() as u64) as usize;
+            xs.swap(0, r);
+            let es: Vec<E> = xs.iter().map(|x| if *x == t { value(rng) } else { gen_kind_value(rng, st, Some(ty_of(*x)).filter(|t| *t != Ty::Any), None) }).collect();
+            let names: Vec<&str> = xs.iter().map(|x| VARS[*x]).collect();
+            let rhs = es.iter().map(|e| e.src.clone()).collect::<Vec<_>>().join(", ");
+            let src = if rng.chance(1, 2) { format!("{} = {}", names.join(", "), rhs) } else { format!("{} = [{}]", names.join(", "), rhs) };
+            Some(BGen {
+                src,
+                key: "ref:typed-unpack",
+                form: tag("typed-unpack"),
+                kind: st.vars[t].kind(),
+                probe: vec![(t, vec![])],
+                copies_container: false,
+                eff: Eff::Unpack { xs, vals: es.into_iter().map(|e| e.val).collect() },
+            })
+        }
+        6 | 7 => {
+            if nv < 2 {
+                return None;
+            }
+            let y = other(rng);
+            let mut py = vec![];
+            if rng.chance(1, 3) {
+                let poss = positions(&st.vars[y], rng);
+                if let Some(p) = pick_pos(rng, &poss, &|p| !p.virt && !p.path.is_empty()) {
+                    py = p.path.clone();
+                }
+            }
+            let (x, px, y2, py2) = if rng.chance(1, 2) { (t, vec![], y, py) } else { (y, py, t, vec![]) };
+            Some(BGen {
+                src: format!("swap {}{}, {}{}", VARS[x], path_src(&px), VARS[y2], path_src(&py2)),
+                key: "ref:typed-swap",
+                form: tag("typed-swap"),
+                kind: st.vars[t].kind(),
+                probe: vec![(t, vec![])],
+                copies_container: false,
+                eff: Eff::Swap { x, px, y: y2, py: py2 },
+            })
+        }
+        8 | 9 => {
+            // op-assignment on the whole typed variable: a result of another kind is rejected at the
+            // write-back and leaves the variable NULL (the slot is null while the operator runs)
+            let (op, rhs): (Op, E) = match (ty, rng.below(4)) {
+                (Ty::Int, 0) => (Op::Dollar, lit(V::Str(gen_str(rng, 1)))),
+                (Ty::Int, 1) => (Op::Str, E { src: "str".into(), val: V::Null, alias: false }),
+                (Ty::Int, 2) => (Op::Plus, lit(V::Int(rng.range(1, 9)))),
+                (Ty::Int, _) => (Op::Append, lit(V::Int(1))),
+                (Ty::List, 0) | (Ty::Str, 0) | (Ty::Dict, 0) | (Ty::Vector, 0) | (Ty::Bytes, 0) => (Op::Len, E { src: "len".into(), val: V::Null, alias: false }),
+                (Ty::List, 1) => (Op::Append, gen_expr(rng, st, 1)),
+                (Ty::List, 2) => (Op::Rev, E { src: "reverse".into(), val: V::Null, alias: false }),
+                (Ty::List, _) => (Op::Concat, pure_lit(rng, 1)),
+                (Ty::Str, 1) => (Op::Dollar, lit(V::Str(gen_str(rng, 1)))),
+                (Ty::Str, _) => (Op::Rev, E { src: "reverse".into(), val: V::Null, alias: false }),
+                (Ty::Dict, 1) => (Op::AddKey, pure_lit(rng, 2)),
+                (Ty::Dict, _) => (Op::Union, pure_lit(rng, 3)),
+                (Ty::Vector, 1) => (Op::Plus, lit(V::Int(rng.range(1, 9)))),
+                (Ty::Vector, _) => (Op::Append, lit(V::Int(rng.range(0, 9)))),
+                (Ty::Bytes, 1) => (Op::Append, lit(V::Int(rng.range(0, 255)))),
+                (Ty::Bytes, _) => (Op::Rev, E { src: "reverse".into(), val: V::Null, alias: false }),
+                _ => return None,
+            };
+            Some(BGen {
+                src: format!("{} {}= {}", VARS[t], op.sym(), rhs.src),
+                key: "ref:typed-opassign",
+                form: format!("typed-opassign({},{})", ty.name(), op_name(op)),
+                kind: st.vars[t].kind(),
+                probe: vec![(t, vec![])],
+                copies_container: false,
+                eff: Eff::Op { x: t, path: vec![], op, rhs: rhs.val },
+            })
+        }
+        _ => {
+            // pop / remove / consume into the typed target: the extraction happens, a value of another
+            // kind is then rejected and the target keeps its old value
+            let x = pick_var(rng, st, &|v| matches!(v, V::List(l) if !l.is_empty()) || matches!(v, V::Dict(m, _) if !m.is_empty()));
+            let poss = positions(&st.vars[x], rng);
+            let which = rng.below(3);
+            let (kind, kw, path) = match which {
+                0 => (Ext::Pop, "pop", pick_pos(rng, &poss, &|p| p.kind == Kind::List && p.len > 0)?.path.clone()),
+                1 => (Ext::Consume, "consume", pick_pos(rng, &poss, &|p| !p.virt)?.path.clone()),
+                _ => {
+                    let p = pick_pos(rng, &poss, &|p| matches!(p.kind, Kind::List | Kind::Dict | Kind::DictD) && p.len > 0)?;
+                    let subs: Vec<&Pos> = poss.iter().filter(|c| !c.virt && c.path.len() == p.path.len() + 1 && c.path[..p.path.len()] == p.path[..]).collect();
+                    if subs.is_empty() {
+                        return None;
+                    }
+                    (Ext::Remove, "remove", subs[rng.below(subs.len() as u64) as usize].path.clone())
+                }
+            };
+            Some(BGen {
+                src: format!("{} = {} {}{}", VARS[t], kw, VARS[x], path_src(&path)),
+                key: "ref:typed-extract",
+                form: tag(&format!("typed-extract-{}", kw)),
+                kind: st.vars[t].kind(),
+                probe: vec![(x, if kind == Ext::Pop { path.clone() } else { parent_of(&path) })],
+                copies_container: false,
+                eff: Eff::Extract { kind, y: t, x, path },
+            })
+        }
+    }
+}
+
+/// `(d[k] = dflt) op= v` on plain dicts (no default), present and absent keys, defaults that are pure,
+/// have a side effect on another variable, or raise
+fn gen_withdefault(rng: &mut Rng, st: &Store, ill: bool) -> Option<BGen> {
+    let nv = st.vars.len();
+    // every plain dict at depth 0..2
+    let mut cands: Vec<(usize, Pos)> = vec![];
+    let mut bad: Vec<(usize, Pos)> = vec![];
+    for x in 0..nv {
+        for p in positions(&st.vars[x], rng) {
+            if p.virt || p.path.len() > 2 {
+                continue;
+            }
+            if p.kind == Kind::Dict {
+                cands.push((x, p));
+            } else if matches!(p.kind, Kind::DictD | Kind::List | Kind::Int) {
+                bad.push((x, p));
+            }
+        }
+    }
+    if cands.is_empty() {
+        // make one: a plain dict with int / list values
+        let y = rng.below(nv as u64) as usize;
+        if !ty_of(y).accepts(&V::Dict(BTreeMap::new(), None)) {
+            return None;
+        }
+        let mut m = BTreeMap::new();
+        let mut parts = vec![];
+        for _ in 0..rng.range(2, 4) {
+            let k = gen_key(rng);
+            let (kt, kv) = ix_key(&k).unwrap();
+            if m.contains_key(&kt) {
+                continue;
+            }
+            let v = if rng.chance(1, 2) { pure_lit(rng, 0) } else { pure_lit(rng, 1) };
+            parts.push(format!("{}: {}", k.key_src(), v.src));
+            m.insert(kt, (kv, v.val));
+        }
+        let val = V::Dict(m, None);
+        return Some(BGen {
+            src: format!("{} = {{{}}}", VARS[y], parts.join(", ")),
+            key: "ref:assign",
+            form: "assign".into(),
+            kind: Kind::Dict,
+            probe: vec![],
+            copies_container: false,
+            eff: Eff::AssignVal { y, val: Ok(val) },
+        });
+    }
+    let illformed = ill && !bad.is_empty() && rng.chance(1, 2);
+    let (x, pos) = if illformed { bad[rng.below(bad.len() as u64) as usize].clone() } else { cands[rng.below(cands.len() as u64) as usize].clone() };
+    let cont = get_path(&st.vars[x], &pos.path).ok()?;
+    let existing: Vec<Ix> = match &cont {
+        V::Dict(m, _) => m.values().filter_map(|(k, _)| key_ix(k)).collect(),
+        _ => vec![],
+    };
+    let present = !existing.is_empty() && rng.chance(1, 2);
+    let k = if present {
+        existing[rng.below(existing.len() as u64) as usize].clone()
+    } else {
+        let mut k = gen_key(rng);
+        for _ in 0..6 {
+            if !existing.contains(&k) {
+                break;
+            }
+            k = gen_key(rng);
+        }
+        if existing.contains(&k) {
+            return None;
+        }
+        k
+    };
+    let mut path = pos.path.clone();
+    path.push(k);
+    // operator by the kind of the stored entry (present) or free (absent)
+    let stored = if present { get_path(&st.vars[x], &path).ok() } else { None };
+    let op = match &stored {
+        Some(V::Int(_)) => Op::Plus,
+        Some(V::List(_)) => *rng.pick(&[Op::Append, Op::Concat]),
+        Some(V::Dict(..)) => Op::AddKey,
+        Some(_) => Op::Append,
+        None => *rng.pick(&[Op::Plus, Op::Append, Op::Append, Op::Concat, Op::AddKey]),
+    };
+    let rhs = match op {
+        Op::Plus => pure_lit(rng, 0),
+        Op::Append => pure_lit(rng, 9),
+        Op::Concat => pure_lit(rng, 1),
+        _ => pure_lit(rng, 2),
+    };
+    let pure_default = |rng: &mut Rng| -> E {
+        match op {
+            Op::Plus => lit(V::Int(if rng.chance(1, 2) { 0 } else { rng.range(1, 9) })),
+            Op::AddKey => E { src: "{}".into(), val: V::Dict(BTreeMap::new(), None), alias: false },
+            _ => E { src: "[]".into(), val: V::List(vec![]), alias: false },
+        }
+    };
+    // the variable the default expression touches: mostly ANOTHER variable, sometimes the same one
+    let y = if nv >= 2 && !rng.chance(1, 7) { (x + 1 + rng.below((nv - 1) as u64) as usize) % nv } else { x };
+    let yposs = positions(&st.vars[y], rng);
+    let shape = rng.below(20);
+    let (dflt, dsrc, dclass): (DefaultE, String, &str) = match shape {
+        0..=5 => {
+            let e = pure_default(rng);
+            (DefaultE::Pure(e.val), e.src, "pure")
+        }
+        6..=8 => {
+            let p = pick_pos(rng, &yposs, &|p| p.kind == Kind::List && p.len > 0)?.path.clone();
+            (DefaultE::Mut(MutRhs::Extract { kind: Ext::Pop, z: y, path: p.clone() }), format!("pop {}{}", VARS[y], path_src(&p)), "pop")
+        }
+        9 | 10 => {
+            let p = pick_pos(rng, &yposs, &|p| !p.virt)?.path.clone();
+            (DefaultE::Mut(MutRhs::Extract { kind: Ext::Consume, z: y, path: p.clone() }), format!("consume {}{}", VARS[y], path_src(&p)), "consume")
+        }
+        11 | 12 => {
+            let p = pick_pos(rng, &yposs, &|p| !p.virt && !p.path.is_empty() && matches!(p.pkind, Kind::List | Kind::Dict | Kind::DictD))?.path.clone();
+            (DefaultE::Mut(MutRhs::Extract { kind: Ext::Remove, z: y, path: p.clone() }), format!("remove {}{}", VARS[y], path_src(&p)), "remove")
+        }
+        13 | 14 => {
+            let then = pure_default(rng);
+            let (nop, val) = match &st.vars[y] {
+                V::Int(_) => (Op::Plus, pure_lit(rng, 0)),
+                V::Dict(..) => (Op::AddKey, pure_lit(rng, 2)),
+                _ => (Op::Append, pure_lit(rng, 0)),
+            };
+            (
+                DefaultE::Mut(MutRhs::OpThen { z: y, op: nop, val: val.val, then: then.val }),
+                format!("({} {}= {}; {})", VARS[y], nop.sym(), val.src, then.src),
+                "opthen",
+            )
+        }
+        15 | 16 => {
+            if st.upds.is_empty() {
+                return None;
+            }
+            let g = rng.below(st.upds.len() as u64) as usize;
+            (DefaultE::Mut(MutRhs::Call { g }), format!("{}()", UPDS[g]), "updater")
+        }
+        _ => {
+            // a default that raises: remove of something that is not there
+            let mut p = pick_pos(rng, &yposs, &|p| !p.virt)?.path.clone();
+            p.push(Ix::I(77));
+            (DefaultE::Mut(MutRhs::Extract { kind: Ext::Remove, z: y, path: p.clone() }), format!("remove {}{}", VARS[y], path_src(&p)), "raising")
+        }
+    };
+    let state = if illformed { "illformed" } else if present { "present" } else { "absent" };
+    Some(BGen {
+        src: format!("({}{} = {}) {}= {}", VARS[x], path_src(&path), dsrc, op.sym(), rhs.src),
+        key: if present && !illformed { "ref:withdefault-present" } else { "ref:withdefault-absent" },
+        form: format!("withdefault-{}({},{})", state, op.sym(), dclass),
+        kind: pos.kind,
+        probe: vec![(x, pos.path.clone())],
+        copies_container: false,
+        eff: Eff::WithDefault { x, path, dflt, op, rhs: rhs.val },
+    })
+}
+
 /// one candidate statement of part B (None: try again)
 fn gen_b(rng: &mut Rng, st: &Store, ill: bool) -> Option<BGen> {
     let nv = st.vars.len();
@@ -2553,6 +3094,12 @@ fn gen_b(rng: &mut Rng, st: &Store, ill: bool) -> Option<BGen> {
     let form = if ncont == 0 || (ncont * 2 <= nv && rng.chance(1, 3)) { "assign" } else { form };
     if form != "assign" && rng.chance(1, 5) {
         return gen_rhsmut(rng, st, ill);
+    }
+    if form != "assign" && any_typed() && rng.chance(1, 6) {
+        return gen_typed(rng, st, ill);
+    }
+    if form != "assign" && rng.chance(1, 6) {
+        return gen_withdefault(rng, st, ill);
     }
     match form {
         "assign" => {
@@ -2629,6 +3176,8 @@ fn gen_b(rng: &mut Rng, st: &Store, ill: bool) -> Option<BGen> {
                     Op::Dollar => matches!(k, Kind::Str | Kind::Int),
                     Op::Rev => matches!(k, Kind::List | Kind::Str | Kind::Vector | Kind::Bytes),
                     Op::Sort => matches!(k, Kind::List | Kind::Vector),
+                    Op::Len => matches!(k, Kind::List | Kind::Str | Kind::Vector | Kind::Bytes | Kind::Dict | Kind::DictD),
+                    Op::Str => k == Kind::Int,
                 }
             };
             let x = pick_var(rng, st, &|v| contains_kind(v, &|u| wants(u.kind())));
@@ -2673,12 +3222,10 @@ fn gen_b(rng: &mut Rng, st: &Store, ill: bool) -> Option<BGen> {
                 Op::Dollar => lit(V::Str(gen_str(rng, 0))),
                 Op::Rev => E { src: "reverse".into(), val: V::Null, alias: false },
                 Op::Sort => E { src: "sort".into(), val: V::Null, alias: false },
+                Op::Len => E { src: "len".into(), val: V::Null, alias: false },
+                Op::Str => E { src: "str".into(), val: V::Null, alias: false },
             };
-            let opname = match op {
-                Op::Rev => "reverse",
-                Op::Sort => "sort",
-                o => o.sym(),
-            };
+            let opname = op_name(op);
             Some(BGen {
                 src: format!("{}{} {}= {}", VARS[x], path_src(&path), op.sym(), rhs.src),
                 key: "ref:opassign",
@@ -3141,6 +3688,7 @@ fn run_b_shard(mut rng: Rng, n_hist: usize, max_len: usize) -> Local {
         let mut hash = fnv(0xcbf29ce484222325, STRUCT_DECL);
         let mut store = Store { vars: vec![], clos: vec![], upds: vec![], hot: None };
         let mut alive = true;
+        types_clear();
         // declarations (aliased on purpose: later declarations mention earlier variables)
         for i in 0..nvars {
             let mut e = gen_expr(&mut rng, &store, 3);
@@ -3150,10 +3698,13 @@ fn run_b_shard(mut rng: Rng, n_hist: usize, max_len: usize) -> Local {
                 }
                 e = gen_expr(&mut rng, &store, 3);
             }
+            // about a third of the variables are declared with a type annotation
+            let ty = if rng.chance(35, 100) { Ty::of(&e.val) } else { Ty::Any };
+            types_push(ty);
             let g = BGen {
-                src: format!("{} := {}", VARS[i], e.src),
+                src: if ty == Ty::Any { format!("{} := {}", VARS[i], e.src) } else { format!("{}: {} = {}", VARS[i], ty.name(), e.src) },
                 key: "ref:declare",
-                form: "declare".into(),
+                form: if ty == Ty::Any { "declare".into() } else { "declare-typed".into() },
                 kind: e.val.kind(),
                 probe: vec![],
                 copies_container: e.alias,
@@ -3236,6 +3787,30 @@ fn run_b_shard(mut rng: Rng, n_hist: usize, max_len: usize) -> Local {
                 }
             }
             let Some((g, ns, ok)) = chosen else { continue };
+            if !matches!(g.eff, Eff::Adopt { .. }) {
+                // the two WRONG variants of the reference semantics (seeded changes a4 / b4): how many
+                // generated statements could tell them from the right one
+                if any_typed() {
+                    loc.typed_cases += 1;
+                    set_wrong(1);
+                    let mut alt = store.clone();
+                    let alt_ok = apply(&g.eff, &mut alt);
+                    set_wrong(0);
+                    if alt_ok != Some(ok) || alt.vars != ns.vars {
+                        loc.a4_sensitive += 1;
+                    }
+                }
+                if matches!(g.eff, Eff::WithDefault { .. }) {
+                    loc.withdefault_cases += 1;
+                    set_wrong(2);
+                    let mut alt = store.clone();
+                    let alt_ok = apply(&g.eff, &mut alt);
+                    set_wrong(0);
+                    if alt_ok != Some(ok) || alt.vars != ns.vars {
+                        loc.b4_sensitive += 1;
+                    }
+                }
+            }
             if let Eff::OpMut { x, path, op, rhs } = &g.eff {
                 let mut alt = store.clone();
                 let alt_ok = st_op_ordered(&mut alt, store_vars, *x, path, *op, &mut |s: &mut Store| eval_mrhs(s, rhs), true);
@@ -3394,7 +3969,9 @@ fn main() {
                 store) dumps. PART B (reference-only): the same scheme over dicts with/without default, strings, vectors, \
                 bytes, struct instances, op-assignments (+ append ++ |. -. || $ .reverse .sort), every / every-op, \
                 remove of index/key/slice, x{k = v}, closures capturing a variable or a value, function calls, and op-/index-assignments \
-                whose right-hand side mutates the same or another variable (nested assignment, pop/consume/remove, updater closure), against a \
+                whose right-hand side mutates the same or another variable (nested assignment, pop/consume/remove, updater closure), \
+                whole-variable writes of every form into type-annotated variables (mostly of a rejected kind), and the with-default \
+                form (d[k] = dflt) op= v with pure / side-effecting / raising defaults on present and absent keys, against a \
                 pure tree store in c01.rs. A case (= one statement of one history) is non-trivial when, in the real \
                 interpreter at the time of the statement, a payload on the mutated index path has strong count > 1 (it is \
                 shared with another holder), or the statement raises, or (non-mutating forms: assign, update, closure, call) \
@@ -3444,6 +4021,7 @@ fn main() {
 
     let (mut a_cases, mut ref_cases, mut adopted, mut selfcheck, mut shared, mut raised, mut hist) = (0u64, 0u64, 0u64, 0u64, 0u64, 0u64, 0u64);
     let (mut order_sensitive, mut rhsmut_cases) = (0u64, 0u64);
+    let (mut typed_cases, mut a4_sensitive, mut withdefault_cases, mut b4_sensitive) = (0u64, 0u64, 0u64, 0u64);
     let mut samples = vec![];
     for (_, loc) in results {
         for (h, nt) in &loc.cases {
@@ -3478,6 +4056,10 @@ fn main() {
         raised += loc.raised_cases;
         hist += loc.histories;
         order_sensitive += loc.order_sensitive;
+        typed_cases += loc.typed_cases;
+        a4_sensitive += loc.a4_sensitive;
+        withdefault_cases += loc.withdefault_cases;
+        b4_sensitive += loc.b4_sensitive;
         rhsmut_cases += loc.rhsmut_cases;
     }
     samples.truncate(12);
@@ -3490,6 +4072,14 @@ fn main() {
     rep.notes.push(format!(
         "op-assignments whose right-hand side mutates a variable (apo + ref:opassign-rhsmut): {}; of these {} give a different result when the old left-hand value is read AFTER the right-hand side (order-sensitive)",
         rhsmut_cases, order_sensitive
+    ));
+    rep.notes.push(format!(
+        "statements in histories with type-annotated variables: {}; of these {} give a different result when a rejected whole-variable write still happens (sensitive to seeded change a4)",
+        typed_cases, a4_sensitive
+    ));
+    rep.notes.push(format!(
+        "with-default op-assignments `(d[k] = dflt) op= v`: {}; of these {} give a different result when the default is evaluated although the key is present (sensitive to seeded change b4)",
+        withdefault_cases, b4_sensitive
     ));
     rep.notes.push(format!("threads: {}", threads));
     rep.notes.push("arm histogram: every case is counted twice, once under its statement form (`si:shared`, `ref:opassign(append):fail`) and once under depth (part A, `depth:d2:shared`) or the kind of the mutated container / copied value (part B, `kind:ddict:shared`)".to_string());
